@@ -234,6 +234,7 @@ func (p *Prog) generateOne(fn *ssa.Function, sp *spec.FuncSpec, splits []splitVa
 	}
 	vc.noSafety = sp.NoSafety
 	vc.typedPtrs = sp.TypedPtrs
+	vc.wfHeap = sp.WFHeap
 	vc.reveal = map[string]bool{}
 	for _, r := range sp.Reveal {
 		vc.reveal[r] = true
